@@ -33,6 +33,10 @@
 EXTENDS Integers, Sequences, FiniteSets, FiniteSetsExt, TLC
 
 Done == -1                      \* iterator position "exhausted"
+(* Real element types: an element carrying a non-zero derivative is written value + Tag (a non-zero element even  *)
+(* when its value is 0); values proper stay far below Tag / 2                                                      *)
+Tag == 1000
+Tagged(x) == x >= 500
 Idx(m) == 0..(m-1)
 
 VARIABLES n,        \* n[o]       length of object o, -1 = object does not exist
